@@ -220,11 +220,11 @@ def expected_rows(dfspec: dict, body: dict) -> list[list[str]]:
     return [[display(dfspec["cols"][j]["values"][r]) for j in cols] for r in range(n)]
 
 
-def observed_data_rows(doc):
+def observed_data_rows(doc, extra=None):
     """-> (rows [(page, texts)], unclassifiable [(page, texts)])"""
     rows, unk = [], []
     for pi, page in enumerate(doc.pages):
-        for role, b in page_roles(page):
+        for role, b in page_roles(page, extra):
             if b.kind != "row":
                 continue
             if role == "data":
